@@ -146,10 +146,15 @@ class Packet(_with_metaclass(bisturi.packet_builder.MetaPacket, object)):
             raise e from None
 
     def pack_impl(self, fragments, **k):
-        [sync(self) for sync in self.get_sync_before_pack_methods()]
         k['innermost-pkt-pos'] = fragments.current_offset
 
         try:
+            for sync in self.get_sync_before_pack_methods():
+                name = getattr(
+                    getattr(sync, '__self__', None), 'descriptor_name', None
+                )
+                sync(self)
+
             for name, f, pack, _ in self.get_fields():
                 pack(pkt=self, fragments=fragments, **k)
         except PacketError as e:
